@@ -140,4 +140,9 @@ def fp_apply(ctx, name, *args):
     ft, fv = _FUNS[key]
     r = SFp(ft(*terms), fv(*terms))
     ctx.assume(z3.And(r.t >= 0, r.t <= 3))
+    hook = getattr(ctx, 'fp_hook', None)
+    if hook is not None:
+        # per-context hook: a contract may state exact IEEE facts about one operation (ctx.assume(..., axiom=...)) or model
+        # the Python-level exception the operation can raise (OverflowError of float ** int); never changes r
+        hook(ctx, name, args, r)
     return r
